@@ -81,6 +81,18 @@ type Prop interface {
 	Parallel() int
 }
 
+// Preparer lets a prop turn run-time-relative tokens of a case (e.g. `now-3600000000000`)
+// into concrete ones just before the case is executed on both sides; replay files keep the
+// relative form.
+type Preparer interface{ Prepare(c Case) Case }
+
+func prep(p Prop, c Case) Case {
+	if pr, ok := p.(Preparer); ok {
+		return pr.Prepare(c)
+	}
+	return c
+}
+
 // Optional: props whose model state must be reset between cases emit this line.
 const ResetLine = "reset"
 
@@ -220,6 +232,7 @@ func safeRunImpl(p Prop, c Case) (out []string) {
 
 // failing reports whether a case still shows the same kind of problem (used by ddmin).
 func failing(p Prop, cfg *Config, c Case, kind string) bool {
+	c = prep(p, c)
 	impl := safeRunImpl(p, c)
 	if kind == "impl-violation" {
 		return !p.Oracle(c, impl).OK
@@ -322,6 +335,11 @@ func Run(p Prop, cfg *Config) (*Result, error) {
 		cases = append(cases, p.Generate(NewRand(cfg.Seed), cfg.Tier)...)
 	}
 	res.Programs = len(cases)
+	raw := cases
+	cases = make([]Case, len(raw))
+	for i := range raw {
+		cases[i] = prep(p, raw[i])
+	}
 	implOut := make([][]string, len(cases))
 	par := p.Parallel()
 	if par < 1 {
@@ -361,7 +379,7 @@ func Run(p Prop, cfg *Config) (*Result, error) {
 		for _, o := range implOut[i] {
 			res.OutHistogram[opKind(o)]++
 		}
-		h := hashOps(c.Ops)
+		h := hashOps(raw[i].Ops)
 		if !seen[h] {
 			seen[h] = true
 			if !p.Trivial(c, implOut[i]) {
@@ -394,13 +412,15 @@ func Run(p Prop, cfg *Config) (*Result, error) {
 			continue
 		}
 		preSeen[presig]++
-		small := c
+		small := raw[i]
 		if cfg.ReplayFile == "" {
-			small = ddmin(p, cfg, c, kind)
+			small = ddmin(p, cfg, raw[i], kind)
 		}
+		unprepared := small
+		small = prep(p, small)
 		si := safeRunImpl(p, small)
 		sv := p.Oracle(small, si)
-		d := Divergence{Kind: kind, Ops: small.Ops, ImplOut: si, Oracle: "holds", Signature: sv.Signature, FirstDiff: fd}
+		d := Divergence{Kind: kind, Ops: unprepared.Ops, ImplOut: si, Oracle: "holds", Signature: sv.Signature, FirstDiff: fd}
 		if !sv.OK {
 			d.Kind = "impl-violation"
 			d.Oracle = "VIOLATED: " + sv.Why
